@@ -605,6 +605,33 @@ async def c10_empty_file(w):
             "expected": {"registered": True, "source": "", "has_mtime": True, "error": None}}
 
 
+async def c16_function_get(w):
+    """An entity and a service share the name script.porch; the name is read through the real interpreter while the service
+    exists, then the owning integration removes the service; reading script.porch must now give the entity's value."""
+    from types import SimpleNamespace as NS
+    from custom_components.pyscript.function import Function
+    from custom_components.pyscript.state import StateVal
+    hass = await boot()
+    registered = {("script", "porch")}
+    hass.services.has_service = lambda d, s: (d, s) in registered
+    hass.states.get = lambda name: NS(state="on", attributes={}, entity_id=name, last_updated="u", last_changed="c", last_reported="r") \
+        if name == "script.porch" else None
+    from custom_components.pyscript.global_ctx import GlobalContext, GlobalContextMgr
+    name = "file.c16get"
+    gctx = GlobalContext(name, global_sym_table={"__name__": name}, manager=GlobalContextMgr)
+    GlobalContextMgr.set(name, gctx)
+    await run_source(name, "r1 = script.porch\n", global_ctx=gctx)
+    registered.clear()          # the owning integration removes its service (hass.services.async_remove)
+    await run_source(name, "r2 = script.porch\nr3 = script.porch\n", global_ctx=gctx)
+    g = gctx.global_sym_table
+    r1, r2, r3 = g.get("r1"), g.get("r2"), g.get("r3")
+    await shutdown()
+    ok = callable(r1) and isinstance(r2, StateVal) and str(r2) == "on" and isinstance(r3, StateVal)
+    return {"reproduced": not ok,
+            "observed": {"while-registered": repr(r1), "after-removal": repr(r2), "again": repr(r3)},
+            "expected": {"while-registered": "a service wrapper", "after-removal": "StateVal 'on' (the name is the state variable script.porch again)"}}
+
+
 async def c12_outgoing(w):
     """service.call / domain.service() with control-keyword look-alikes; data delivered must equal the given kwargs
     minus control keywords of the recognised type."""
